@@ -41,7 +41,7 @@ Check(ok, clause, v) == IF ok THEN v ELSE IF v.clause = "" THEN [clause |-> clau
 \* the pren / oren counters of the trace are reported, not predicted: compare everything else
 SameBut(c1, c2, op) ==
   /\ c1.admin = c2.admin /\ c1.reg = c2.reg /\ c1.outs = c2.outs /\ c1.sens = c2.sens
-  /\ (op # "pren" => c1.pren = c2.pren) /\ (op # "oren" => c1.oren = c2.oren)
+  /\ (op # "pren" => c1.pren = c2.pren) /\ (op \notin {"oren", "outs"} => c1.oren = c2.oren)      \* (a selection may drop renamed outputs)
 
 ConsistentWith(c, sid, si) ==
   /\ sid \in DOMAIN si
